@@ -120,3 +120,69 @@ contract(M, 'TemplateModel._get_template_dense', props=['C05'],
              ('automatic-list-amplitudes-decrease', 'implies(channel_ids is None, all(result.amplitude[i] >= result.amplitude[j] for i in range(len(result.amplitude)) for j in range(i + 1, len(result.amplitude))))'),
              ('automatic-list-distinct-channels-in-range', 'implies(channel_ids is None, all(0 <= result.channel_ids[i] and result.channel_ids[i] < nc for i in range(len(result.channel_ids))) and all(result.channel_ids[i] != result.channel_ids[j] for i in range(len(result.channel_ids)) for j in range(i + 1, len(result.channel_ids))))'),
              ('peak-channel-is-listed-when-automatic', 'implies(channel_ids is None, any(result.channel_ids[j] == result.best_channel for j in range(len(result.channel_ids))))')])
+
+# =========================================================================================================================
+# _get_template_sparse: stored (n_samples, n_channels_loc) template + column table row; rank-2 theory of pyvc/mat.py.
+# The stored values are tval(stack, template, sample, column) (uninterpreted: any template set).
+# =========================================================================================================================
+declare_ufunc('tval', ['int', 'int', 'int', 'int'], 'real')
+declare_class('TemplateStackM', None, fields={'uid': 'int', 'n': 'int', 'n_samples': 'int', 'width': 'int'})
+declare_class('SparseStore', None, fields={'data': 'obj[TemplateStackM]', 'cols': 'mat[int]'})
+declare_class('TemplateRecordM', None, fields={'template': 'mat[real]', 'amplitude': 'arr[real]', 'best_channel': 'int', 'channel_ids': 'arr[int]'})
+contract('<lib>', 'TemplateStackM.__getitem__', kind='assumed', params={'self': 'obj[TemplateStackM]', 'i': 'int'}, result='mat[real]',
+    requires=['0 <= i and i < self.n'],
+    ensures=['len(result) == self.n_samples and width(result) == self.width', 'all(all(result[s][c] == tval(self.uid, i, s, c) for c in range(self.width)) for s in range(self.n_samples))'],
+    note='templates[i]: the stored (n_samples, n_channels_loc) waveform of template i')
+contract(M, 'TemplateModel._unwhiten', variant='matrix', kind='assumed', params={'self': 'obj[TemplateModel]', 'x': 'mat[real]', 'channel_ids': 'arr[int]'}, result='mat[real]',
+    requires=['width(x) == len(channel_ids)'], ensures=['same_lengths(result, x)'], note='np.dot(x, wmi[ix_(ids, ids)]) * scaling: same shape (values are not specified)')
+contract('<lib>', 'Bunch', variant='matrix-record', kind='assumed', params={}, kwargs='kw', cases=[{'kw': 'rec[template:mat[real],amplitude:arr[real],best_channel:int,channel_ids:arr[int]]'}], result='obj[TemplateRecordM]',
+    result_from={'fields_of': 'kw', 'cls': 'TemplateRecordM'}, ensures=[])
+
+_SD, _SC = 'self.sparse_templates.data', 'self.sparse_templates.cols'
+_TV = lambda s, c: 'tval(%s.uid, template_id, %s, %s)' % (_SD, s, c)
+_ABS = lambda x: 'ite(%s >= 0, %s, -(%s))' % (x, x, x)
+# "signal-free": the column's largest magnitude does not exceed 1e-6 of the largest magnitude of the whole stored template
+_SIGDEF = lambda c: ('any(all(all(%s > 0.000001 * %s for c2 in range(%s.width)) for s2 in range(%s.n_samples)) for s1 in range(%s.n_samples))'
+                     % (_ABS(_TV('s1', c)), _ABS(_TV('s2', 'c2')), _SD, _SD, _SD))
+declare_ufunc('sig', ['int', 'int', 'int'], 'bool')      # sig(stack, template, column): DEFINED below (requires 'definition-of-signal') as "the column carries signal"
+_SIGNAL = lambda c: 'sig(%s.uid, template_id, %s)' % (_SD, c)
+_KEPT = lambda c: '(%s[template_id][%s] != -1 and %s)' % (_SC, c, _SIGNAL(c))
+contract(M, 'TemplateModel._get_template_sparse', props=['C05'], params={'template_id': 'int', 'unwhiten': 'bool'}, defaults={'unwhiten': 'True'},
+    fields={'sparse_templates': 'obj[SparseStore]'},
+    requires=[('template-exists', '0 <= template_id and template_id < %s.n and len(%s) == %s.n and width(%s) == %s.width and %s.n_samples >= 1 and %s.width >= 1' % (_SD, _SC, _SD, _SC, _SD, _SD, _SD)),
+              # a definition, not a restriction: sig is otherwise uninterpreted (conservative extension; it keeps the quantifier alternation out of the other clauses)
+              ('definition-of-signal', 'all(iff(%s, %s) for c in range(%s.width))' % (_SIGNAL('c'), _SIGDEF('c'), _SD)),
+              ('stored-channel-ids-at-least-minus-1', 'all(%s[template_id][c] >= -1 for c in range(%s.width))' % (_SC, _SD)),
+              ('some-stored-channel-is-used-and-has-signal', 'any(%s for c in range(%s.width))' % (_KEPT('c'), _SD))],      # otherwise ValueError: known finding
+    result='obj[TemplateRecordM]',
+    cuts=[('template_max = np.abs', 'column-magnitudes', 'len(template_max) == %s.width and all(all(%s <= template_max[c] for s in range(%s.n_samples)) and any(%s == template_max[c] for s in range(%s.n_samples)) for c in range(%s.width))' % (_SD, _ABS(_TV('s', 'c')), _SD, _ABS(_TV('s', 'c')), _SD, _SD)),
+          ('has_signal =', 'signal-flag-means-signal', 'len(has_signal) == %s.width and all(iff(has_signal[c], %s) for c in range(%s.width))' % (_SD, _SIGNAL('c'), _SD)),
+          ('template_w = template_w[:, has_signal]', 'columns-with-signal', 'width(template_w) == len(channel_ids) and len(template_w) == %s.n_samples and all(any(%s[template_id][c] == channel_ids[j] and %s and all(template_w[s][j] == %s for s in range(%s.n_samples)) for c in range(%s.width)) for j in range(len(channel_ids)))' % (_SD, _SC, _SIGNAL('c'), _TV('s', 'c'), _SD, _SD)),
+          ('template_w = template_w[:, has_signal]', 'every-column-with-signal-is-kept', 'all(implies(%s, any(channel_ids[j] == %s[template_id][c] for j in range(len(channel_ids)))) for c in range(%s.width))' % (_SIGNAL('c'), _SC, _SD)),
+          ('channel_ids = channel_ids[used]', 'kept-columns', 'width(template_w) == len(channel_ids) and len(template_w) == %s.n_samples and all(any(%s[template_id][c] == channel_ids[j] and %s and all(template_w[s][j] == %s for s in range(%s.n_samples)) for c in range(%s.width)) for j in range(len(channel_ids)))' % (_SD, _SC, _KEPT('c'), _TV('s', 'c'), _SD, _SD)),
+          ('channel_ids = channel_ids[used]', 'every-kept-column-is-there', 'all(implies(%s, any(channel_ids[j] == %s[template_id][c] for j in range(len(channel_ids)))) for c in range(%s.width))' % (_KEPT('c'), _SC, _SD)),
+          ('amplitude = template.max', 'amplitudes-bound-the-column-differences', 'len(amplitude) == width(template) and all(all(all(amplitude[j] >= template[s1][j] - template[s2][j] for s2 in range(len(template))) for s1 in range(len(template))) for j in range(len(amplitude)))'),
+          ('amplitude = template.max', 'amplitudes-are-attained', 'all(any(any(amplitude[j] == template[s1][j] - template[s2][j] for s2 in range(len(template))) for s1 in range(len(template))) for j in range(len(amplitude)))'),
+          ('channels_reordered =', 'reordering-is-a-permutation', 'len(channels_reordered) == len(amplitude) and all(0 <= channels_reordered[k] and channels_reordered[k] < len(amplitude) for k in range(len(channels_reordered))) and all(any(channels_reordered[k] == p for k in range(len(channels_reordered))) for p in range(len(amplitude))) and '
+           # (the same fact once more over the positions of channel_ids: the instantiation engine draws candidates for p from the array whose length bounds it)
+           'len(channel_ids) == len(amplitude) and all(any(channels_reordered[k] == p for k in range(len(channels_reordered))) for p in range(len(channel_ids)))')],
+    using={'signal-flag-means-signal': ['column-magnitudes', 'definition-of-signal', 'theory:ndarray.max', 'theory:elementwise'],
+           'column-magnitudes': ['theory:np.abs', 'theory:ndarray.max'],
+           'peak-channel-is-listed-with-the-largest-amplitude': ['theory:np.argmax', 'reordering-is-a-permutation', 'theory:index', 'theory:ndarray.astype'],
+           'listed-channels-are-stored-used-and-carry-signal': ['kept-columns', 'reordering-is-a-permutation', 'theory:index'],
+           'every-used-stored-channel-with-signal-is-listed': ['every-kept-column-is-there', 'reordering-is-a-permutation', 'theory:index'],
+           'amplitude-j-bounds-every-difference-in-column-j': ['amplitudes-bound-the-column-differences', 'reordering-is-a-permutation', 'theory:index'],
+           'amplitude-j-is-attained-in-column-j': ['amplitudes-are-attained', 'reordering-is-a-permutation', 'theory:index'],
+           'reordering-is-a-permutation': ['theory:np.argsort', 'theory:slice']},
+    ensures=[('one-column-and-one-amplitude-per-listed-channel', 'len(result.amplitude) == len(result.channel_ids) and width(result.template) == len(result.channel_ids) and len(result.template) == %s.n_samples' % _SD),
+             # "entry j of the amplitude vector is that column's peak-to-peak amplitude"
+             # (the largest difference of two samples of the column: an upper bound of every difference, and attained)
+             ('amplitude-j-bounds-every-difference-in-column-j', 'all(all(all(result.amplitude[j] >= result.template[s1][j] - result.template[s2][j] for s2 in range(len(result.template))) for s1 in range(len(result.template))) for j in range(len(result.channel_ids)))'),
+             ('amplitude-j-is-attained-in-column-j', 'all(any(any(result.amplitude[j] == result.template[s1][j] - result.template[s2][j] for s2 in range(len(result.template))) for s1 in range(len(result.template))) for j in range(len(result.channel_ids)))'),
+             ('decreasing-peak-to-peak-amplitude', 'all(result.amplitude[i] >= result.amplitude[j] for i in range(len(result.amplitude)) for j in range(i + 1, len(result.amplitude)))'),
+             # "with sparse storage they are the stored channels minus unused (-1) and signal-free ones"
+             ('listed-channels-are-stored-used-and-carry-signal', 'all(any(%s[template_id][c] == result.channel_ids[j] and %s for c in range(%s.width)) for j in range(len(result.channel_ids)))' % (_SC, _KEPT('c'), _SD)),
+             ('every-used-stored-channel-with-signal-is-listed', 'all(implies(%s, any(result.channel_ids[j] == %s[template_id][c] for j in range(len(result.channel_ids)))) for c in range(%s.width))' % (_KEPT('c'), _SC, _SD)),
+             # "column j of the returned waveform is the (optionally unwhitened) template on the j-th listed channel" (whitened request: the stored column itself)
+             ('whitened-request-returns-the-stored-columns', 'implies(not unwhiten, all(any(%s[template_id][c] == result.channel_ids[j] and all(result.template[s][j] == %s for s in range(%s.n_samples)) for c in range(%s.width)) for j in range(len(result.channel_ids))))' % (_SC, _TV('s', 'c'), _SD, _SD)),
+             ('peak-channel-is-listed-with-the-largest-amplitude', 'any(result.channel_ids[j] == result.best_channel and all(result.amplitude[j] >= result.amplitude[i] for i in range(len(result.amplitude))) for j in range(len(result.channel_ids)))')])
